@@ -85,7 +85,10 @@ where
             unreachable!("State should be ObserverState::Created. It was checked at the beggining");
         };
 
+        #[cfg(not(pearl_verif))]
         let (sender, receiver) = channel(OBSERVER_CHANNEL_SIZE_LIMIT);  
+        #[cfg(pearl_verif)]
+        let (sender, receiver) = channel(crate::verif::knob("observer_channel", OBSERVER_CHANNEL_SIZE_LIMIT));
         let worker = ObserverWorker::new(
             receiver,
             inner
